@@ -2,7 +2,7 @@
   C08 — Expressions follow the operator table and mean the same in every position.
 
   What is proved here (all over the frozen model: `TwigModel/ParseExpr.lean` = parser.go after the
-  precedence-climbing repair, `TwigModel/Scan.lean` `lexExpr` = TokenizeExpression, `TwigModel/Value.lean`
+  precedence-climbing repair and the repair that parses subscripts onto the operand of a prefix operator, `TwigModel/Scan.lean` `lexExpr` = TokenizeExpression, `TwigModel/Value.lean`
   `binop` = evaluateBinaryOp, `TwigModel/Render.lean` `evalX` = EvaluateExpression):
 
   1. `C08_facts_current`   the precedence table / operator words / climbing constants extracted from the Go
@@ -12,6 +12,8 @@
                            over atoms parses back to that tree, with the fuel `exprFuel` used by the model;
      `C08_parse_printMin`, `C08_parse_printFull`, `C08_min_eq_full_tree`, `C08_min_eq_full_value`,
      `C08_left_assoc`, `C08_higher_binds_tighter`, `C08_parens_override`, `C08_fuel_mono`;
+     `C08_subscript_binds_tighter_than_prefix` (`-xs[1]` is `-(xs[1])`, not `(-xs)[1]`; chains `-ys[0][1]`;
+     the context after the `]` may be a filter bar: `-xs[1]|abs` is `(-(xs[1]))|abs`), `C08_prefix_without_subscript`;
   4. `C08_lex_spacing`     spelling tokens with any whitespace that keeps fusing neighbours apart lexes back;
      `C08_source_roundtrip` bytes → tokens → tree for the printed forms;
   5. `C08_arith_exact`, `C08_div_mod_zero`, `C08_short_circuit_*`, `C08_cond_one_branch`.
@@ -179,7 +181,7 @@ theorem C08_table_order_generated (F : PrecFacts) (hF : F.ok = true) (o1 o2 : Bi
 /-! ## 3. Round trip through the parser -/
 
 /-- Fuel: more fuel never changes a result that is not the out-of-fuel error (value or genuine parse error).
-    The same holds for all fourteen parser functions (`PE.parse*_mono`). -/
+    The same holds for all fifteen parser functions (`PE.parse*_mono`). -/
 theorem C08_fuel_mono {f f' : Nat} {ts : List Token} {r : R (Expr × List Token)}
     (h : parseExpression f ts = r) (hne : r ≠ .error .fuel) (hle : f ≤ f') : parseExpression f' ts = r :=
   parseExpression_mono h hne hle
@@ -303,6 +305,58 @@ theorem C08_prefix_binds_tightest {a c : Expr} {ta tc rest : List Token} (ha : S
   have h6 := prec_le_six o
   refine (C08_parse_spelling (.bin (prec_pos o) (.unary (.simple ha)) (.atom hc ?_)) hs).1
   simp [lvlOperand]; omega
+
+/-- A SUBSCRIPT BINDS TIGHTER THAN A PREFIX OPERATOR (as attribute access and calls do).  For a prefix operator
+    `u ∈ {not, -, +}`, operand tokens `to` that `parseSimpleExpression` reads as `e` in front of the subscript, and
+    index tokens `ti` that `parseExpression` reads as `i` in front of the closing bracket, the token sequence
+    `u to [ ti ] rest` is read by `parseSimpleExpression` as `u (e[i])` and leaves `rest` — for every fuel from
+    `fe + fi + 3` on — and for NO fuel as `(u e)[i]` (what the parser returned before the repair).
+    `rest` is anything that does not start with another `[` (`NoSubscript`): the end, an operator, a closing token,
+    and also a filter bar — the filter is left to the caller, so `-xs[1]|abs` is `(-(xs[1]))|abs`. -/
+theorem C08_subscript_binds_tighter_than_prefix (u : UnOp) {e i : Expr} {to ti rest : List Token} {fe fi : Nat}
+    (he : parseSimple fe (to ++ lbTok :: (ti ++ rbTok :: rest)) = .ok (e, lbTok :: (ti ++ rbTok :: rest)))
+    (hi : parseExpression fi (ti ++ rbTok :: rest) = .ok (i, rbTok :: rest))
+    (hr : NoSubscript rest = true) :
+    (∀ f, fe + fi + 3 ≤ f →
+      parseSimple f (unTok u :: (to ++ lbTok :: (ti ++ rbTok :: rest))) = .ok (.unary u (.item e i), rest)) ∧
+    (∀ f, parseSimple f (unTok u :: (to ++ lbTok :: (ti ++ rbTok :: rest))) ≠ .ok (.item (.unary u e) i, rest)) := by
+  have h1 := parseSimple_unary_subscript u he hi hr
+  refine ⟨h1, fun f hc => ?_⟩
+  have h2 := parseSimple_mono hc ok_ne_fuel (Nat.le_max_left f (fe + fi + 3))
+  rw [h1 _ (Nat.le_max_right _ _)] at h2
+  cases h2
+
+/-- the same for the whole expression, with the fuel the model uses: when the context ends the expression,
+    `u to [ ti ]` parses to `u (e[i])` -/
+theorem C08_prefix_subscript_expression (u : UnOp) {e i : Expr} {to ti rest : List Token} {fe fi : Nat}
+    (he : parseSimple fe (to ++ lbTok :: (ti ++ rbTok :: rest)) = .ok (e, lbTok :: (ti ++ rbTok :: rest)))
+    (hi : parseExpression fi (ti ++ rbTok :: rest) = .ok (i, rbTok :: rest))
+    (hs : Stop rest = true) :
+    parseExpression (exprFuel (unTok u :: (to ++ lbTok :: (ti ++ rbTok :: rest))))
+      (unTok u :: (to ++ lbTok :: (ti ++ rbTok :: rest))) = .ok (.unary u (.item e i), rest) :=
+  parseExpression_exprFuel_of
+    (parseExpression_of_simple (parseSimple_unary_subscript u he hi (noSubscript_of_stop hs) _ (Nat.le_refl _)) hs _
+      (Nat.le_refl _))
+
+/-- chains: `u to [i1][i2]…[ik]` is `u (e[i1][i2]…[ik])` (`-ys[0][1]` is `-((ys[0])[1])`); every index is a token list
+    that is read as its expression in front of a closing bracket (`IndexOk`; e.g. every spelling `SpellsX`,
+    `indexOk_of_spellsX`) -/
+theorem C08_subscript_chain_binds_tighter_than_prefix (u : UnOp) {e : Expr} {to rest : List Token} {f0 : Nat}
+    (idx : List (Expr × List Token))
+    (he : parseSimple f0 (to ++ (subsToks (idx.map (·.2)) ++ rest)) = .ok (e, subsToks (idx.map (·.2)) ++ rest))
+    (hidx : ∀ p ∈ idx, IndexOk f0 p.1 p.2) (hs : Stop rest = true) :
+    parseExpression (exprFuel (unTok u :: (to ++ (subsToks (idx.map (·.2)) ++ rest))))
+      (unTok u :: (to ++ (subsToks (idx.map (·.2)) ++ rest))) = .ok (.unary u (itemChain e (idx.map (·.1))), rest) :=
+  parseExpression_exprFuel_of
+    (parseExpression_of_simple (parseSimple_unary_chain u idx he hidx (noSubscript_of_stop hs) _ (Nat.le_refl _)) hs _
+      (Nat.le_refl _))
+
+/-- nothing else changed: when no `[` follows the operand, a prefix operator reads exactly its operand — in
+    particular in front of a filter bar (`-x|abs` is still `(-x)|abs`) -/
+theorem C08_prefix_without_subscript (u : UnOp) {e : Expr} {to rest : List Token} {fe : Nat}
+    (he : parseSimple fe (to ++ rest) = .ok (e, rest)) (hr : NoSubscript rest = true) :
+    ∀ f, fe + 2 ≤ f → parseSimple f (unTok u :: (to ++ rest)) = .ok (.unary u e, rest) :=
+  parseSimple_unary_plain u he hr
 
 /-- a test has the comparison precedence: `a op x is name` applies the test to `x` alone when `op` binds tighter
     than comparison is false, i.e. for `or`/`and`: `a and x is defined` = `a and (x is defined)`;
@@ -519,6 +573,57 @@ example : parseExpression (exprFuel (lexExpr (b "1 + 2 < 4 and 2 * 2 == 4"))) (l
   with_unfolding_all rfl
 example : parseExpression (exprFuel (lexExpr (b "(-a + b)"))) (lexExpr (b "(-a + b)")) =
     .ok (.binary .add (.unary .neg (v "a")) (v "b"), []) := by with_unfolding_all rfl
+-- a subscript binds tighter than a prefix operator: instances of the theorem's hypotheses and conclusion
+example : parseSimple 9 (unTok .neg :: ([tk NAME (b "xs")] ++ lbTok :: ([tk NUMBER (b "1")] ++ rbTok :: []))) =
+    .ok (.unary .neg (.item (v "xs") (i 1)), []) :=
+  (C08_subscript_binds_tighter_than_prefix .neg (fe := 2) (fi := 4) (by with_unfolding_all rfl) (by with_unfolding_all rfl) rfl).1 9
+    (by decide)
+example : unTok .neg :: ([tk NAME (b "xs")] ++ lbTok :: ([tk NUMBER (b "1")] ++ rbTok :: [])) = lexExpr (b "-xs[1]") := by
+  decide +kernel
+example : NoSubscript (lexExpr (b "|abs")) = true ∧ NoSubscript (lexExpr (b "+ 1")) = true ∧ NoSubscript [tk VAR_END] = true ∧
+    NoSubscript (lexExpr (b "[0]")) = false := by decide +kernel
+example : parseExpression (exprFuel (lexExpr (b "-xs[1]"))) (lexExpr (b "-xs[1]")) = .ok (.unary .neg (.item (v "xs") (i 1)), []) := by
+  with_unfolding_all rfl
+example : parseExpression (exprFuel (lexExpr (b "not xs[1]"))) (lexExpr (b "not xs[1]")) = .ok (.unary .not (.item (v "xs") (i 1)), []) := by
+  with_unfolding_all rfl
+example : parseExpression (exprFuel (lexExpr (b "-xs[1]|abs"))) (lexExpr (b "-xs[1]|abs")) =
+    .ok (.filter (.unary .neg (.item (v "xs") (i 1))) (b "abs") [], []) := by with_unfolding_all rfl
+example : parseExpression (exprFuel (lexExpr (b "-x|abs"))) (lexExpr (b "-x|abs")) =
+    .ok (.filter (.unary .neg (v "x")) (b "abs") [], []) := by with_unfolding_all rfl
+example : parseExpression (exprFuel (lexExpr (b "- -xs[0]"))) (lexExpr (b "- -xs[0]")) =
+    .ok (.unary .neg (.unary .neg (.item (v "xs") (i 0))), []) := by with_unfolding_all rfl
+example : parseExpression (exprFuel (lexExpr (b "-ys[0][1]"))) (lexExpr (b "-ys[0][1]")) =
+    .ok (.unary .neg (.item (.item (v "ys") (i 0)) (i 1)), []) := by with_unfolding_all rfl
+example : parseExpression (exprFuel (lexExpr (b "-m.k[1]"))) (lexExpr (b "-m.k[1]")) =
+    .ok (.unary .neg (.item (.attr (v "m") (b "k")) (i 1)), []) := by with_unfolding_all rfl
+example : parseExpression (exprFuel (lexExpr (b "-xs[1"))) (lexExpr (b "-xs[1")) =
+    perr "expected closing bracket after array index" := by with_unfolding_all rfl
+
+/-- parse `src` as template `main` and render it through the whole pipeline (`parseTemplate`, `renderTop`): the
+    output, or `none` on any failure (the helper of C09's examples) -/
+private def renderDemo (src : String) (vars : List (Bytes × Val) := []) : Option Bytes :=
+  match parseTemplate (b src) with
+  | .ok nodes =>
+    match renderTop { tpls := [(b "main", nodes)] } (b "main") vars with
+    | .ok (o, _) => some o
+    | .error _ => none
+  | .error _ => none
+
+private def xsV : List (Bytes × Val) :=
+  [(b "xs", .list [.int 3, .int 8, .int 0]), (b "ys", .list [.list [.int 5, .int 7], .list [.int 0, .int 2]]), (b "x", .int 4)]
+
+-- whole pipeline (lexer, template parser, expression parser, evaluator, output): on the unrepaired parser each of the
+-- first six printed nothing
+example : renderDemo "{{ -xs[1] }}" xsV = some (b "-8") := by decide +kernel
+example : renderDemo "{{ not xs[1] }}|{{ not xs[2] }}" xsV = some (b "false|true") := by decide +kernel
+example : renderDemo "{{ +xs[1] }}" xsV = some (b "8") := by decide +kernel
+example : renderDemo "{{ 5 + -xs[1] }}" xsV = some (b "-3") := by decide +kernel
+example : renderDemo "{{ -xs[1]|abs }}" xsV = some (b "8") := by decide +kernel
+example : renderDemo "{{ - -xs[0] }}" xsV = some (b "3") := by decide +kernel
+example : renderDemo "{{ -ys[0][1] }}" xsV = some (b "-7") := by decide +kernel
+example : renderDemo "{{ -x|abs }}" xsV = some (b "4") := by decide +kernel                 -- unchanged: `(-x)|abs`
+example : renderDemo "{{ -xs[x - 3] * 2 }}|{{ -xs[1] < 0 ? 'neg' : 'pos' }}" xsV = some (b "-16|neg") := by decide +kernel
+example : renderDemo "{% if not xs[2] %}zero{% endif %}{% set n = -xs[0] %}{{ n }}" xsV = some (b "zero-3") := by decide +kernel
 -- spacing: irregular but separating whitespace; fusing neighbours are rejected by `Separated`
 example : Separated (printMin ex1) [[], [], [32, 9], [32], [10], [], [], [32, 32]] = true := by decide +kernel
 example : spellToks (printMin ex1) [[], [], [32, 9], [32], [10], [], [], [32, 32]] = b "1+ \t2 *\n3-4  " := by decide +kernel
